@@ -95,6 +95,90 @@ func hasLoop(f *ssa.Function) bool {
 }
 
 func runC16(r *Report) {
+	// both copy directions of the server bridge defer the bridge close (shared with R-C02-3): when one
+	// side finishes the other is shut down and Start returns
+	if bs := r.need("R-C16-4", "internal/protocol/session/tunnel", "Bridge.Start"); bs != nil {
+		if n := checkDirectionsDeferClose(r, "R-C16-4", bs); n != 2 {
+			r.Fail("R-C16-4", bs.Pos(), fmt.Sprintf("expected 2 copy goroutines in Bridge.Start, found %d", n), "Bridge.Start", "directions")
+		}
+	}
+	// a close-all sweep visits every element: the callback of a sync.Map.Range (or similar visitor) in a
+	// CloseAll / DisposeAll / onClose function never answers false ("stop") on its normal path
+	nSweep := 0
+	for _, pk := range []string{"internal/client/tunnel", "internal/core/dispose", "internal/protocol/session", "internal/client/mapping"} {
+		for _, f := range r.P.FuncsIn(pk) {
+			nm := Outermost(f).Name()
+			if f.Parent() != nil || !(strings.HasPrefix(nm, "CloseAll") || strings.HasPrefix(nm, "DisposeAll") || nm == "onClose" || nm == "Close") {
+				continue
+			}
+			for _, rg := range Calls(f, false, "sync:Map.Range") {
+				cb := resolveClosure(Arg(rg, 0), f, 0)
+				if cb == nil {
+					continue
+				}
+				nSweep++
+				all := true
+				for _, ret := range Returns(cb) {
+					if v, isC := ConstBool(RetVal(ret, 0)); isC && !v {
+						all = false
+					}
+				}
+				r.Ob("R-C16-2", CallPos(rg), all, "the close sweep visits every element (its Range callback never returns false)", r.P.FuncName(f), "sweep-visits-all")
+			}
+		}
+	}
+	if nSweep < 1 {
+		r.Fail("R-C16-2", 0, "no close sweep over a sync.Map found (tunnel manager CloseAll confirmed by hand)", "sweeps", "sweep-visits-all:floor")
+	}
+	// the resource manager forgets everything it has disposed: DisposeAll resets the registration order
+	// together with the resource table (a name left in one of them is disposed again after re-registration)
+	if da := r.need("R-C16-1", "internal/core/dispose", "ResourceManager.DisposeAll"); da != nil {
+		reset := map[string]bool{}
+		Instrs(da, func(in ssa.Instruction) {
+			st, ok := in.(*ssa.Store)
+			if !ok {
+				return
+			}
+			if t, fld, _, isF := FieldOf(st.Addr); isF && t == "ResourceManager" {
+				switch st.Val.(type) {
+				case *ssa.MakeMap, *ssa.MakeSlice, *ssa.Slice:
+					reset[fld] = true
+				default:
+					if isNil(st.Val) {
+						reset[fld] = true
+					}
+				}
+			}
+		})
+		// the collections the manager registers into (map + order slice): every field Register writes
+		want := map[string]bool{}
+		if rg := r.P.Fn("internal/core/dispose", "ResourceManager.Register"); rg != nil {
+			Instrs(rg, func(in ssa.Instruction) {
+				switch x := in.(type) {
+				case *ssa.MapUpdate:
+					if _, fld, _, ok := FieldOf(x.Map); ok {
+						want[fld] = true
+					}
+				case *ssa.Store:
+					if t, fld, _, ok := FieldOf(x.Addr); ok && t == "ResourceManager" {
+						if c, _ := CallOfValue(x.Val); c != nil {
+							if b, isB := c.Call.Value.(*ssa.Builtin); isB && b.Name() == "append" {
+								want[fld] = true
+							}
+						}
+					}
+				}
+			})
+		}
+		var miss []string
+		for f := range want {
+			if !reset[f] {
+				miss = append(miss, f)
+			}
+		}
+		sort.Strings(miss)
+		r.Ob("R-C16-1", da.Pos(), len(want) >= 2 && len(miss) == 0, fmt.Sprintf("DisposeAll re-initialises every collection Register fills (%d collections, not reset: %v)", len(want), miss), "ResourceManager.DisposeAll", "forgets-all")
+	}
 	// what Bridge.Close sets to nil under a lock is read elsewhere only under that lock: a reader
 	// that skips it can observe the nil (or a half-written interface) in the middle of its work
 	if bc := r.need("R-C16-3", "internal/protocol/session/tunnel", "Bridge.Close"); bc != nil {
